@@ -49,7 +49,7 @@ ASSUMPTIONS = ['functions fetched before the close are not used after it (unspec
                'x86-64 glibc: a library is unmapped when its last handle is closed (observed via /proc/self/maps)']
 BUDGET = {'quick': 480, 'thorough': 9600}
 STEPS = {'quick': 25, 'thorough': 40}
-TIME = {'quick': 30, 'thorough': 600}
+TIME = {'quick': 20, 'thorough': 600}
 MIN_PER_SHARD = 120      # 4 shards in the quick tier (start-up dominates), 16 in thorough
 MAX_LIBS = 6
 
